@@ -4,3 +4,4 @@ import MoreExec.Props.C09
 import MoreExec.Props.C14
 import MoreExec.Props.C15
 import MoreExec.Props.C13
+import MoreExec.Props.C16
